@@ -158,7 +158,9 @@ mod verif_mpsc {
     seg!(c06_try_recv_bounded1_full, try_recv_contract(Some(1), 1, true));
     seg!(c06_try_recv_unbounded_two, try_recv_contract(None, 2, false));
 
-    /// C06.mpsc.must_block [K]: the two blocking predicates against their specification
+    /// C06.mpsc.must_block [K]: the two blocking predicates against their specification.
+    /// (cfg(verif_fragile): calls two private helpers by name; see pipeline/kani.py)
+    #[cfg(verif_fragile)]
     seg!(c06_must_block_predicates, {
         let bound = match kani::any::<u8>() % 3 { 0 => None, 1 => Some(0), _ => Some(1) };
         let cap = match bound { Some(b) => if b == 0 { 1 } else { b }, None => 2 };
